@@ -24,6 +24,8 @@ func main() {
 		os.Exit(cmdCheck(os.Args[2:]))
 	case "selftest":
 		os.Exit(cmdSelftest(os.Args[2:]))
+	case "mapranges":
+		os.Exit(cmdMapRanges(os.Args[2:]))
 	}
 	fmt.Fprintln(os.Stderr, "unknown command", os.Args[1])
 	os.Exit(2)
